@@ -10,8 +10,16 @@ Open Scope Z_scope.
 Definition carries (i : kinfo) (a : alias) : Prop :=
   a = kfp i \/ a = lastn 16 (kfp i) \/ a = lastn 8 (kfp i) \/
   exists u, In u (kuids i) /\ (a = u_name u \/ (a = u_comment u /\ a <> []) \/ (a = u_email u /\ a <> [])).
-(* "(also with spaces in fingerprints)": an identifier selects a key when it, or it without blanks, is carried *)
-Definition selects (i : kinfo) (a : alias) : Prop := carries i a \/ carries i (strip a).
+(* "(also with spaces in fingerprints)": a fingerprint (40 hexadecimal digits), key id (16) or short id (8) may be written in
+   groups; any other identifier -- a name, a comment, an e-mail address -- is taken as it is written.  So an identifier selects a
+   key when the key carries it, or when its space-free form has the shape of a fingerprint / key id and the key carries that.
+   (Written on its own terms: `hex_digit` / `id_shape` are Props over code points, not the model's boolean `unspaced`;
+   Proofs/Keyring_lemmas.v selects_unspaced relates the two.) *)
+Definition hex_digit (c : Z) : Prop := 48 <= c <= 57 \/ 65 <= c <= 70 \/ 97 <= c <= 102.        (* 0-9 A-F a-f *)
+Definition id_shape (s : alias) : Prop := (length s = 8 \/ length s = 16 \/ length s = 40)%nat /\ Forall hex_digit s.
+Definition selects (i : kinfo) (a : alias) : Prop := carries i a \/ (id_shape (strip a) /\ carries i (strip a)).
+(* the reading implemented before commit 48f9d25 (blanks ignored in EVERY identifier): "John Smith" selected a key named "JohnSmith" *)
+Definition selects_old (i : kinfo) (a : alias) : Prop := carries i a \/ carries i (strip a).
 
 (* what is loaded after a history: plain set semantics on key objects (a list without repetition, oldest first).
    Loading a key object that is already there does nothing; otherwise it and those of its subkeys that are not there yet
